@@ -33,7 +33,8 @@ import (
 
 func main() {
 	tx.Main(tx.Unit{Name: "T3", File: "GenCfgMsg.v", Fn: genCfgMsg}, tx.Unit{Name: "T7F", File: "GenFlags.v", Fn: genFlags},
-		tx.Unit{Name: "T3L", File: "GenLoadShape.v", Fn: genLoadShape})
+		tx.Unit{Name: "T3L", File: "GenLoadShape.v", Fn: genLoadShape},
+		tx.Unit{Name: "T3C", File: "GenLegacyConv.v", Fn: genLegacyConv})
 }
 
 type fieldInfo struct {
@@ -348,7 +349,7 @@ func (t *tr) access(e ast.Expr, ev *env) (access, bool) {
 				a.owners = append(a.owners, owners...)
 				a.k = k
 				curS = k.sname
-				if !strings.HasPrefix(k.code, "struct:") {
+				if !strings.HasPrefix(k.code, "struct:") && !strings.HasPrefix(k.code, "optstruct:") {
 					curS = ""
 				}
 			}
